@@ -92,7 +92,14 @@ func init() {
 				oracleFail("C02", "json-reparse-error", short, err.Error())
 				continue
 			}
+			// every signed command step must come back as a command step (a step that falls back to an unknown
+			// step after the round trip carries a signature nobody can check any more)
+			signedBefore, _ := checkAllQuiet(p.Steps)
 			cnt, okj := checkAll("json", pj.Steps)
+			if cnt != signedBefore {
+				oracleFail("C02", "json-command-step-lost", short, fmt.Sprintf("%d command steps were signed, %d command steps come back from the JSON round trip\n%s", signedBefore, cnt, jb))
+				okj = false
+			}
 			// step by step, the way an agent receives a job
 			var each func(ss pipeline.Steps)
 			each = func(ss pipeline.Steps) {
@@ -132,7 +139,9 @@ func init() {
 					if err != nil && !warning.Is(err) {
 						oracleFail("C02", "yaml-reparse-error", short, err.Error()+"\n"+string(yb))
 					} else {
-						checkAll("yaml", py.Steps)
+						if ycnt, _ := checkAll("yaml", py.Steps); ycnt != signedBefore {
+							oracleFail("C02", "yaml-command-step-lost", short, fmt.Sprintf("%d command steps were signed, %d command steps come back from the YAML round trip\n%s", signedBefore, ycnt, yb))
+						}
 						stat("C02", "yaml-leg")
 					}
 				}
@@ -154,4 +163,19 @@ func init() {
 			}
 		}
 	}
+}
+
+// checkAllQuiet counts the command steps of a step tree (all depths)
+func checkAllQuiet(ss pipeline.Steps) (int, bool) {
+	n := 0
+	for _, s := range ss {
+		switch t := s.(type) {
+		case *pipeline.CommandStep:
+			n++
+		case *pipeline.GroupStep:
+			m, _ := checkAllQuiet(t.Steps)
+			n += m
+		}
+	}
+	return n, true
 }
